@@ -83,7 +83,7 @@ class C05(Check):
     # ------------------------------------------------------------------ plan
     def _gen_opt_case(self, rng):
         lexer = rng.choice(['basic', 'dynamic', 'dynamic_complete'])
-        g = prio.gen_grammar(rng, colliding=(lexer != 'basic'))
+        g = prio.gen_grammar(rng, colliding=(lexer != 'basic'), deep=rng.random() < 0.5)
         inputs = prio.gen_inputs(g, rng, k=4)
         mode = rng.choice(['normal', 'normal', 'invert', 'invert', None])
         return {'kind': 'opt', 'g': g, 'inputs': inputs, 'lexer': lexer, 'priority': mode, 'ordered_sets': rng.random() < 0.7}
